@@ -10,6 +10,29 @@ import (
 
 func nopFinish() error { return nil }
 
+// stickyErrWriter remembers the first error of writing to the standard
+// output. The commands do not check the result of every write of a report
+// line, so the error is reported when the command finishes.
+type stickyErrWriter struct {
+	w   io.Writer
+	err error
+}
+
+func (s *stickyErrWriter) Write(p []byte) (int, error) {
+	n, err := s.w.Write(p)
+	if err != nil && s.err == nil {
+		s.err = err
+	}
+	return n, err
+}
+
+func (s *stickyErrWriter) finish() error {
+	if s.err != nil {
+		return fmt.Errorf("cannot write to stdout for -text-out: %s", s.err)
+	}
+	return nil
+}
+
 func withTextOutWriter(textOut string, f func(io.Writer) error) (err error) {
 	tow, finish, err := newTextOutWriter(textOut)
 	if err != nil {
@@ -28,7 +51,8 @@ func newTextOutWriter(textOut string) (w io.Writer, finish func() error, err err
 		return ioutil.Discard, nopFinish, nil
 	}
 	if textOut == "-" {
-		return os.Stdout, nopFinish, nil
+		sw := &stickyErrWriter{w: os.Stdout}
+		return sw, sw.finish, nil
 	}
 
 	file, err := os.OpenFile(textOut, os.O_WRONLY|os.O_CREATE|os.O_APPEND, 0644)
